@@ -43,6 +43,7 @@ TInit ==
 
 Call(e) ==
     \/ e.ev = "rec"       /\ RecordE(e.name, e.cli, e.reason)
+    \/ e.ev = "recn"      /\ RecordMany(e.n, e.name, e.cli, e.reason)
     \/ e.ev = "flush"     /\ Flush
     \/ e.ev = "autoflush" /\ AutoFlush
     \/ e.ev = "rotate"    /\ Rotate
@@ -69,7 +70,7 @@ TSearch ==
     /\ l <= Len(Trace) /\ Trace[l].ev = "search"
     /\ Quiescent
     /\ LET e  == Trace[l]
-           ok == Admissible(e.p, Log, [st |-> e.r.st, data |-> e.r.data, oldest |-> e.r.oldest])
+           ok == Admissible(e.p, Log, Disk, [st |-> e.r.st, data |-> e.r.data, oldest |-> e.r.oldest])
        IN /\ bad' = IF ok THEN bad ELSE bad \cup {l}
           /\ IF ok THEN TRUE ELSE PrintT(<<"@@V", ToJson([k |-> "bad", line |-> l, want |-> Q(e.p)])>>)
     /\ l' = l + 1
